@@ -385,6 +385,27 @@ class Ctx:
         self.cov["trace_events"] += len(lines)
         return n_exec - rejected
 
+    def validate_collect(self, module, trace_path, key_of, cfg=None, env=None, what_of=None):
+        """For trace specs whose events are independent and which collect the line numbers of rejected events in a TLC register
+        (printed as <<"REJECTED-EVENTS", <<...>>>> by the postcondition): one TLC run, every rejected event becomes a violation."""
+        lines = [l for l in open(trace_path).read().splitlines() if l.strip()]
+        e = {"TRACE": trace_path}
+        e.update(env or {})
+        r = tlc(module, cfg, env=e, workers=1, metaroot=self.work, timeout=1800)
+        self.cov["tlc_runs"].append({"module": module, "trace": os.path.basename(trace_path), "events": len(lines), "generated": r.generated, "distinct": r.distinct, "depth": r.depth})
+        self.cov["states"] += r.distinct
+        self.cov["transitions"] += r.generated
+        m = re.search(r'<<\s*"REJECTED-EVENTS",\s*<<(.*?)>>\s*>>', r.out, re.S)
+        if r.rc == 124 or "Parsing or semantic analysis failed" in r.out or m is None or r.depth - 1 != len(lines):
+            raise EngineError("trace validation %s failed to run to the end:\n%s" % (module, r.out[-3000:]))
+        rejected = [int(x) for x in re.findall(r"\d+", m.group(1))]
+        for i in rejected:
+            bad = json.loads(lines[i - 1])
+            self.violation(key_of([bad], bad), what_of([bad], bad) if what_of else "event rejected by %s: %s" % (module, lines[i - 1][:300]), {"trace_spec": module, "rejected_event": bad})
+        self.cov["traces_validated_against_impl"] += len(lines)
+        self.cov["trace_events"] += len(lines)
+        return rejected
+
     # ---- results
     def count(self, n_eval, distinct_keys=()):
         self.cov["evaluations"] += n_eval
